@@ -24,6 +24,7 @@ type tableSpec struct {
 	Name string     `json:"name"` // file name incl. extension (decides the format)
 	Rows [][]string `json:"rows"` // id, v, s
 	Big  bool       `json:"big"`  // padded so the file exceeds 64 KiB
+	Link bool       `json:"link"` // the table path is a symbolic link to real/<name>
 }
 
 type crashCase struct {
@@ -44,6 +45,7 @@ func genCase(t *rapid.T) crashCase {
 		ext := fw.PickU(t, "ext", exts)
 		ts := tableSpec{Name: fmt.Sprintf("t%d%s", i+1, ext)}
 		ts.Big = fw.Pct(t, "big", 15)
+		ts.Link = fw.Pct(t, "link", 15)
 		nr := fw.Range(t, "nrows", 0, 6)
 		if ts.Big {
 			nr = fw.Range(t, "bigrows", 600, 900)
@@ -167,10 +169,21 @@ func setupDir(c crashCase, tag string) (string, map[string]string) {
 	_ = os.RemoveAll(dir)
 	_ = os.MkdirAll(dir, 0755)
 	files := map[string]string{}
+	plain := map[string]string{}
 	for _, ts := range c.Tables {
 		files[ts.Name] = render(ts)
+		if ts.Link {
+			plain["real/"+ts.Name] = files[ts.Name]
+		} else {
+			plain[ts.Name] = files[ts.Name]
+		}
 	}
-	_ = run.WriteFiles(dir, files)
+	_ = run.WriteFiles(dir, plain)
+	for _, ts := range c.Tables {
+		if ts.Link {
+			_ = os.Symlink(filepath.Join("real", ts.Name), filepath.Join(dir, ts.Name))
+		}
+	}
 	return dir, files
 }
 
@@ -244,6 +257,9 @@ func checkCase(c crashCase) (fw.Outcome, *fw.Violation) {
 		if ts.Big {
 			o.Classes = append(o.Classes, "big_table")
 		}
+		if ts.Link {
+			o.Classes = append(o.Classes, "symlinked_table")
+		}
 		o.Classes = append(o.Classes, "fmt"+filepath.Ext(ts.Name))
 	}
 
@@ -316,9 +332,9 @@ func keys(m map[string]string) []string {
 
 func TestC10CrashPoints(t *testing.T) {
 	fw.Run(t, fw.Spec[crashCase]{
-		ID: "C10", Name: "crash_points", Quick: 120, Thorough: 2400,
+		ID: "C10", Name: "crash_points", Quick: 72, Thorough: 2400,
 		Gen: genCase, Check: checkCase,
-		Rule: "generated repositories (1-3 tables in CSV/TSV/JSON/JSONL/LTSV, some >64KiB) and transactions (UPDATE/INSERT/DELETE on 1-3 tables, 0-2 CREATE TABLE) ending in COMMIT; a dry run logs every verification point passed from Transaction.Commit to process end; for EVERY such point the process is killed there (SIGKILL to itself) on a fresh copy; oracle: every pre-existing table exists and is byte-identical to its old or its new contents, and after deleting the hidden control files a fresh csvq can read and update every table; evaluations = kills; non-trivial = a kill after the first file-system mutation of the commit and before its last steps, distinct by (point name, hit index class, #updated, #created)",
+		Rule: "generated repositories (1-3 tables in CSV/TSV/JSON/JSONL/LTSV, some >64KiB, some reached through a symbolic link) and transactions (UPDATE/INSERT/DELETE on 1-3 tables, 0-2 CREATE TABLE) ending in COMMIT; a dry run logs every verification point passed from Transaction.Commit to process end; for EVERY such point the process is killed there (SIGKILL to itself) on a fresh copy; oracle: every pre-existing table exists and is byte-identical to its old or its new contents, and after deleting the hidden control files a fresh csvq can read and update every table; evaluations = kills; non-trivial = a kill after the first file-system mutation of the commit and before its last steps, distinct by (point name, hit index class, #updated, #created)",
 		Assumptions: []string{"crash = process death at a hooked point between file-system calls (SIGKILL); torn single write(2) calls and power loss are not modelled",
 			"the new contents are taken from an uninterrupted run of the same program"},
 	})
